@@ -15,6 +15,10 @@ import (
 	acpIdentity "github.com/sourcenetwork/defradb/acp/identity"
 	acpTypes "github.com/sourcenetwork/defradb/acp/types"
 	"github.com/sourcenetwork/defradb/client"
+	"github.com/sourcenetwork/defradb/internal/core"
+	"github.com/sourcenetwork/defradb/internal/datastore"
+	"github.com/sourcenetwork/defradb/internal/db/id"
+	"github.com/sourcenetwork/defradb/internal/keys"
 )
 
 var pErrACP = errors.New("verif: injected acp error")
@@ -298,4 +302,110 @@ func VerifH_C10_ShowDeleted() {
 		vAssert(got[i] == want[i], "exactly-the-readable-documents-in-order")
 	}
 	vObserve("n", len(got))
+}
+
+// VerifH_C10_Stack — the fetcher stack as wrappingFetcher.Start composes it (prefix fetchers over the document
+// store, the merge with the deleted documents when showDeleted is set, the permissioned fetcher) driven through
+// Init / Start / FetchNext: the documents returned are exactly the readable ones (of the requested statuses), in
+// document-id order, as if the others did not exist. conf: n (documents), deleted (1: showDeleted)
+func VerifH_C10_Stack() {
+	n := vConfInt("n")
+	showDeleted := vConfInt("deleted") != 0
+	def := client.CollectionDefinition{
+		Version: client.CollectionVersion{Name: "T", VersionID: "sv1", CollectionID: "col", IsActive: true,
+			Policy: immutable.Some(client.PolicyDescription{ID: "pol1", ResourceName: "res1"}),
+			Fields: []client.CollectionFieldDescription{{Name: "f"}}},
+		Schema: client.SchemaDescription{Name: "T", VersionID: "sv1", Root: "sv1",
+			Fields: []client.SchemaFieldDescription{{Name: "f", Kind: client.FieldKind_NILLABLE_INT, Typ: client.LWW_REGISTER}}},
+	}
+	txn := &iTxn{data: &vKV{}, system: &vKV{}}
+	ctx := datastore.CtxSetTxn(context.Background(), txn)
+	ctx = id.InitCollectionShortIDCache(ctx)
+	ctx = id.InitFieldShortIDCache(ctx)
+	if id.SetShortCollectionID(ctx, "col") != nil {
+		panic("short collection id")
+	}
+	if id.SetShortFieldID(ctx, 1, "f") != nil {
+		panic("short field id")
+	}
+	acp := &pACP{wantPolicy: "pol1", wantRes: "res1"}
+	var readable, isDeleted []bool
+	for i := 0; i < n; i++ {
+		// (document ids have the fixed length of "bae-" + a UUID: the key decoder relies on it)
+		docID := "bae-00000000-0000-0000-0000-00000000000" + string(rune('0'+i))
+		acp.ids = append(acp.ids, docID)
+		reg, allowed := vBool("registered"), vBool("allowed")
+		acp.registered = append(acp.registered, reg)
+		acp.allowed = append(acp.allowed, allowed)
+		acp.regErr = append(acp.regErr, false)
+		acp.chkErr = append(acp.chkErr, false)
+		readable = append(readable, !reg || allowed)
+		del := vChoose("is-deleted", 2) == 1
+		isDeleted = append(isDeleted, del)
+		// the document as collection.save / applyDelete leave it: the marker of the document and one field value,
+		// under the value prefix or under the deleted prefix
+		for _, fieldID := range []string{keys.DATASTORE_DOC_VERSION_FIELD_ID, "1"} {
+			k := keys.DataStoreKey{CollectionShortID: 1, DocID: docID, FieldID: fieldID}
+			if del {
+				k = k.WithDeletedFlag()
+			} else {
+				k = k.WithValueFlag()
+			}
+			val := []byte("sv1")
+			if fieldID == "1" {
+				val = []byte{0x01}
+			}
+			txn.data.put(k.Bytes(), val)
+		}
+	}
+	f := NewDocumentFetcher()
+	var dacp dac.DocumentACP = &pCountingACP{pACP: acp, limit: 8 * (n + 1)}
+	err := f.Init(ctx, immutable.None[acpIdentity.Identity](), txn, immutable.Some(dacp), immutable.None[client.IndexDescription](),
+		&vCol{def: def}, nil, nil, nil, core.NewDocumentMapping(), showDeleted)
+	vAssert(err == nil, "no-error")
+	if err != nil {
+		return
+	}
+	err = f.Start(ctx)
+	vAssert(err == nil, "no-error")
+	if err != nil {
+		return
+	}
+	var got []string
+	terminated := false
+	func() {
+		defer func() {
+			if r := recover(); r != nil {
+				if _, ok := r.(pLivelock); !ok {
+					panic(r)
+				}
+			}
+		}()
+		for k := 0; k < n+2; k++ {
+			d, _, err := f.FetchNext(ctx)
+			vAssert(err == nil, "next-no-error")
+			if err != nil || d == nil {
+				break
+			}
+			got = append(got, string(d.ID()))
+			vAssert((d.Status() == client.Deleted) == isDeleted[acp.idx(string(d.ID()))], "status-as-stored")
+		}
+		terminated = true
+	}()
+	vCover("fetched")
+	vAssert(terminated, "fetch-loop-terminates")
+	if !terminated {
+		return
+	}
+	var want []string
+	for i := 0; i < n; i++ {
+		if readable[i] && (showDeleted || !isDeleted[i]) {
+			want = append(want, acp.ids[i])
+		}
+	}
+	vObserve("got", len(got))
+	vAssert(len(got) == len(want), "exactly-the-readable-documents")
+	for i := 0; i < len(got) && i < len(want); i++ {
+		vAssert(got[i] == want[i], "exactly-the-readable-documents-in-order")
+	}
 }
